@@ -102,3 +102,13 @@ package stream
 //@ nopanic [C09] negotiateReader
 //@ nopanic [C09] writeAttr
 // END enrolment C09
+
+// C10: closing writes to the writer it was given (one write) and reports that
+// write's error.
+//@ func Close
+//@   noswallow[C10]
+//@   ghost writes int = 0
+//@   callsite (io.Writer).Write#*
+//@     assert[C10] arg0 == w && writes == 0
+//@     after: writes = writes + 1
+//@   ensures[C10] writes == 1
